@@ -86,7 +86,7 @@ def check(spec, tier, seed, replay=None):
             proof_broken.append("translator failed: %s\n%s" % (tr, out[-2000:]))
 
     # 2. proofs
-    ok, out = D.build_coq(spec.get("coq_targets"))
+    ok, out = D.build_coq(spec.get("coq_targets"), clean=(tier == "thorough" and not os.environ.get("VERIF_NO_CLEAN")))
     if not ok:
         proof_broken.append("coq build failed:\n" + "\n".join(l for l in out.splitlines() if "Error" in l or "rror:" in l or "File " in l)[-3000:])
     bad = D.scan_forbidden([os.path.join(D.COQ, t[:-1]) for t in spec.get("coq_targets", [])] + [os.path.join(D.COQ, "theories", "Props", pid + ".v")])
@@ -95,6 +95,11 @@ def check(spec, tier, seed, replay=None):
     audit = D.audit_props(pid)
     if not audit["ok"]:
         proof_broken.append("Props/%s.v does not check or depends on unlisted axioms: %s\n%s" % (pid, audit.get("bad_axioms"), audit["log"][-2500:]))
+    if tier == "thorough" and not proof_broken:
+        chk = D.coqchk(pid)
+        audit["coqchk"] = dict(ok=chk["ok"], axioms=chk["axioms"], wall_s=chk["wall_s"])
+        if not chk["ok"]:
+            proof_broken.append("coqchk does not accept the compiled closure of Props/%s.vo:\n%s" % (pid, chk["log"]))
 
     # 3./4. cases, correspondence, monitors
     n = spec["n_thorough"] if tier == "thorough" else spec["n_quick"]
@@ -177,6 +182,10 @@ def evidence(spec, tier, seed, summ, mv, t0, nviol, audit, broken):
         trusted_base=TRUSTED_COMMON + spec.get("trusted_base", []) + ["axioms reported by Print Assumptions this run: " + (", ".join(audit.get("axioms", [])) or "none (Closed under the global context)")],
         theorems=audit.get("printed", []),
     )
+    if audit.get("coqchk"):
+        cov["coqchk"] = audit["coqchk"]
+        cov["trusted_base"].append("coqchk -o (independent checker) on the closure of Props/%s.vo: %s; axioms: %s" % (
+            pid, "accepted" if audit["coqchk"]["ok"] else "REJECTED", ", ".join(audit["coqchk"]["axioms"]) or "<none>"))
     if summ is not None:
         cases = summ["cases"]
         nok = summ.get("validated", sum(1 for c in cases if not (c.get("key") or "")))
